@@ -80,6 +80,25 @@ func isCallbackField(t types.Type) bool {
 }
 
 func runC22(c *Ctx) {
+	c.Rule("C22.IDIOM", "PAIR: in the cluster FSM Restore/rebuild functions, the two halves of a map idiom name the same map and key: a get-or-create stores the new set under the key it looked up, and a delete-when-empty removes the entry whose own set it found empty")
+	{
+		n := 0
+		for _, fn := range c.P.FuncsIn("internal/cluster/raft") {
+			isRestore := strings.Contains(strings.ToLower(fn.Name()), "restore") || strings.Contains(strings.ToLower(fn.Name()), "rebuild")
+			if !isRestore {
+				continue
+			}
+			issues, k := mapIdiomIssues(fn)
+			n += k
+			for i, is := range issues {
+				c.Bad("C22.IDIOM", fmt.Sprintf("%s|%s#%d", fn.Name(), is.kind, i+1), is.pos, "%s", is.what)
+			}
+			if k > 0 && len(issues) == 0 {
+				c.OK("C22.IDIOM", fn.Name()+"|map-idioms", fn.Pos(), "%d get-or-create / delete-when-empty site(s), halves agree", k)
+			}
+		}
+		c.Check(n >= 1, "C22.IDIOM", "internal/cluster/raft|sites", 0, fmt.Sprintf("%d idiom sites inspected", n), "no map idiom site found (rule needs review)")
+	}
 	p := c.P
 	c.Rule("C22.DISPATCH", "COVER: every declared CommandType constant is compared against in Apply's dispatch; the default arm returns an error")
 	c.Rule("C22.PURE", "WHO: no function reachable from Apply or Restore (module code, callbacks/metrics/logging excluded) calls the clock, a random source, the OS, the network or a UUID generator")
